@@ -113,7 +113,9 @@ class Transformer:
         :param task_type: the type of the task, i.e. whether it is a minimization or maximization task
         :return: an instance of EmpireModel class, i.e. the pydantic representation of the empire
         """
-        cost = empire.cost
+        # the reported agent is the emperor: its own position with its own cost (the total cost of the empire, colonies
+        # included, only drives the competition between empires)
+        emperor = empire.emperor
         return EmpireModel(
-            position=empire.emperor.representation, cost=cost, fitness=calculate_fitness(cost, task_type)
+            position=emperor.representation, cost=emperor.cost, fitness=calculate_fitness(emperor.cost, task_type)
         )
